@@ -102,7 +102,7 @@ def rule_policy_defaults(ctx: Ctx, out: Collector) -> None:
     SET = AObj(('ext', 'builtins.object'), {}, tag='configured-value')
     for name, dflt in expect.items():
         m = ci.methods[name]
-        cons = f'{m.module.name}::{m.qualname}::<node>.{name} or <documented default>'
+        cons = f'{m.module.name}::{m.qualname}::<node>.{name}, or the documented default when it is unset'
         table = {}
         problems = []
         for label, val in (('unset (None)', None), ('falsy', 0 if name != 'exceptions' else ()), ('set', SET)):
@@ -129,14 +129,18 @@ def rule_policy_defaults(ctx: Ctx, out: Collector) -> None:
             if label == 'set':
                 if not (len(vals) == 1 and vals[0] is SET):
                     problems.append(f'a configured {name} yields {vals}')
+            elif label == 'falsy' and name == 'exceptions':
+                # an explicit empty tuple is a configured value ("retry nothing"), not an unset one
+                if not (len(vals) == 1 and vals[0] == () and not is_default(vals[0])):
+                    problems.append(f'an explicitly empty exceptions tuple yields {vals} (must stay empty: nothing is retried)')
             elif not (len(vals) == 1 and is_default(vals[0])):
                 problems.append(f'{label} {name} yields {vals}')
         detail = '; '.join(f'{k} -> {v}' for k, v in table.items())
         if not problems:
             out.ok('RT-1', cons, ctx.p.loc(m, m.node), detail)
         else:
-            out.bad('RT-1', cons, ctx.p.loc(m, m.node), f'the retry policy does not compute {name} as '
-                                                        f'`node.{name} or {"(Exception,)" if dflt == "exc" else dflt}` ({"; ".join(problems)}): '
+            out.bad('RT-1', cons, ctx.p.loc(m, m.node), f'the retry policy does not map the node\'s {name} setting with the documented '
+                                                        f'default {"(Exception,)" if dflt == "exc" else dflt} ({"; ".join(problems)}): '
                                                         f'the configured / default {name} is not applied')
 
 
@@ -296,11 +300,40 @@ def rule_retry_loop(ctx: Ctx, out: Collector) -> None:
         out.bad('RT-4', cons, head.where(), 'the retry loop does not wait the configured delay between attempts / does not invoke the '
                                             'body exactly once per attempt: ' + '; '.join(problems))
 
+    # ---- RT-8: the policy object of the loop is made from the class configured on the dag
+    cons8 = base + '::the retry policy is the one configured on the dag [dag policy]'
+    makers = []
+    for n in env.own_nodes():
+        if isinstance(n, ast.Call) and any(k.arg == 'node' for k in n.keywords) and not n.args:
+            tt = [t for t in env.resolve_call(n)]
+            is_policy = any(t[0] == 'class' and (t[1] is pol or any(getattr(b, 'name', '') == 'RetryPolicyLike' for b in ctx.p.mro(t[1])
+                                                                   if isinstance(b, ClassInfo))) for t in tt) \
+                or (isinstance(n.func, ast.Attribute) and 'retry_policy' in n.func.attr)
+            if is_policy:
+                makers.append(n)
+    if not makers:
+        raise AnalysisError(f'{unit.fid}: construction of the retry policy not found (RT-8 anchor vanished)')
+    hard = [n for n in makers if not (isinstance(n.func, ast.Attribute) and n.func.attr == 'retry_policy')]
+    if not hard:
+        out.ok('RT-8', cons8, ctx.p.loc(unit, makers[0]), unparse(makers[0])[:60])
+    else:
+        out.bad('RT-8', cons8, ctx.p.loc(unit, hard[0]), f'{unparse(hard[0])[:60]} instantiates a fixed policy class: the retry_policy '
+                f'field of the DAG (public, part of DAGLike) is never read, a policy configured on the dag has no effect')
+
     # ---- RT-5 counter
     cons = base + '::attempt counter (k-th invocation sees counter == k, stops at attempts)'
+    _LAST_EXIT_TEST.pop(unit.fid, None)
     verdict, detail = _counter(ctx, unit, g, head, region)
     if verdict == 'ok':
         out.ok('RT-5', cons, head.where(), detail)
+        # RT-9: the setting is user data: the loop must give up for every counter value at or beyond it
+        cons9 = base + '::the retry loop gives up for every counter value at or beyond `attempts` [bounded retry]'
+        if _LAST_EXIT_TEST.get(unit.fid) == 'equality':
+            out.bad('RT-9', cons9, head.where(), 'the only exit of the retry loop is an equality of the counter with the setting: for a '
+                    'setting the counter never equals (negative, non-integral) a failing node is retried for ever, run() never returns '
+                    'and use_default is never applied')
+        else:
+            out.ok('RT-9', cons9, head.where(), 'threshold test')
     elif verdict == 'bad':
         out.bad('RT-5', cons, head.where(), f'the attempt counter does not implement "attempts invocations in total": {detail}')
     else:
@@ -348,6 +381,9 @@ def rule_retry_loop(ctx: Ctx, out: Collector) -> None:
 
 _FLIP = {ast.Lt: ast.Gt, ast.Gt: ast.Lt, ast.LtE: ast.GtE, ast.GtE: ast.LtE, ast.Eq: ast.Eq, ast.NotEq: ast.NotEq}
 _NEG = {ast.Lt: ast.GtE, ast.GtE: ast.Lt, ast.Gt: ast.LtE, ast.LtE: ast.Gt, ast.Eq: ast.NotEq, ast.NotEq: ast.Eq}
+
+
+_LAST_EXIT_TEST: Dict[str, str] = {}
 
 
 def _counter(ctx: Ctx, unit: FuncUnit, g: Graph, head: Ev, region: Set[int]) -> Tuple[str, str]:
@@ -492,10 +528,12 @@ def _counter(ctx: Ctx, unit: FuncUnit, g: Graph, head: Ev, region: Set[int]) -> 
     v1 = init + pre          # value in iteration 1
     if op in (ast.Eq, ast.GtE):
         if v1 == 1:
+            _LAST_EXIT_TEST[unit.fid] = 'equality' if op is ast.Eq else 'threshold'
             return 'ok', f'{how}; exhausted iff {counter} {"==" if op is ast.Eq else ">="} attempts: invocation k sees {counter} == k'
         return 'bad', f'{how}: the counter is {v1} after the first failed attempt, so the body is invoked attempts{1 - v1:+d} times in total'
     if op is ast.Gt:
         if v1 == 2:
+            _LAST_EXIT_TEST[unit.fid] = 'threshold'
             return 'ok', f'{how}; exhausted iff {counter} > attempts'
         return 'bad', f'{how}, exhausted iff {counter} > attempts: the body is invoked attempts{2 - v1:+d} times in total'
     sym_ = {ast.NotEq: '!=', ast.Lt: '<', ast.LtE: '<='}.get(op, op.__name__)
